@@ -66,9 +66,15 @@ META = {
     "Python's fixed-point formatting as reference semantics, validated each run: printed value within half a unit of the last place; "
     "_unwrap_stats), cog_gbox, the pyramid plan of _pyramids_from_cog_metadata (level k+1 from level k onto the GeoBox of IFD k+1, chunked by "
     "its tile: compared with the layers of the public dry run), Props/C05C15 (geotiff_metadata's call through the C15 trace model); the "
-    "GDAL_NODATA tag is read back with tifffile and must parse to the array's nodata.  NOT mirrored in the Lean model (inventory of "
-    "the anchor files): _stats_from_layer (which dask reductions are taken; the VALUES are judged by the statistics oracle with a "
-    "tolerance derived from dtype and pixel count), non-finite statistics (nan / inf / numpy's masked constant), _fill_value, the "
+    "GDAL_NODATA tag is read back with tifffile and must parse to the array's nodata.  Final increment: _stats_from_layer on integer data is a Lean model (Model/C05Stats.lean: which "
+    "pixels enter which band for YX / YXS / SYX, nodata masking, min / max, mean as exact rational printed through the fixed-point "
+    "model, the valid count) with theorem level0_statistics_are_the_valid_pixels, compared exactly with the real helper (cases whose "
+    "exact mean sits on a printing tie are skipped); non-finite statistics are pinned ('nan' for a 2-D image without a valid pixel — "
+    "also valid_percent —, '--' for band vectors, 'nan' for all-NaN floats); Props/C05CogFile.lean composes with C06's "
+    "cog_file_end_to_end: every tile entry lies inside the FILE the sink leaves, behind the header, overview data before "
+    "full-resolution data.  NOT mirrored in the Lean model (inventory of the anchor files): _stats_from_layer's stddev and its "
+    "floating-point (nan-aware) branch (VALUES judged by the statistics oracle with a tolerance derived from dtype and pixel count), "
+    "_fill_value, the "
     "resampling inside _pyramids_from_cog_metadata (odc.reproject), geotiff_metadata beyond the transform tags (GeoKey directory, the "
     "TEXT of GDAL_NODATA / GDAL_METADATA as GDAL writes it), "
     "ODCExtensionDa.nodata (attrs['nodata'] then attrs['_FillValue'], as float: oracle only), the S3 branch (MultiPartUpload, "
@@ -1893,6 +1899,68 @@ def run(R: Run):
                             for k, l_ in enumerate(dry_["layers"][1:]))
 
         R.corr(f"c05 pyr {list_s([ny_, nx_])} {gbox_s(gb_)} {list_s(bl_, blk_s)}", f, sig="pyramid-plan|" + str(len(bl_)))
+
+    # ---- _stats_from_layer on integer data (Model/C05Stats.lean): which pixels enter which band's statistics for every band
+    # layout, nodata masking; mean as the exact rational printed to 6 decimals (cases where the exact mean sits on a printing
+    # tie are skipped: there the double nearest to it decides, not the rational)
+    if have("_stats_from_layer"):
+        from fractions import Fraction  # pylint: disable=import-outside-toplevel
+
+        def nest_s(arr):
+            return "|".join(";".join(",".join(str(int(v)) for v in c) for c in b) for b in arr)
+
+        for k_ in range(R.pick(40, 600)):
+            ax_ = ["YX", "SYX", "YXS", "SYX"][k_ % 4]
+            ny_, nx_ = rng.choice([(1, 1), (2, 2), (4, 4), (5, 5), (5, 10), (10, 10), (8, 25), (1, 25), (16, 1)])
+            ns_ = 1 if ax_ == "YX" else rng.randint(1, 4)
+            dt_ = rng.choice(["uint8", "int16", "uint16", "int32"])
+            nd_ = rng.choice([None, None, 0, 7, 200])
+            lo_, hi_ = (0, 255) if dt_ == "uint8" else ((0, 60000) if dt_ == "uint16" else (-30000, 30000))
+            shp_ = (ny_, nx_) if ax_ == "YX" else ((ny_, nx_, ns_) if ax_ == "YXS" else (ns_, ny_, nx_))
+            arr_ = np.array([rng.choice([rng.randint(lo_, hi_), rng.randint(lo_, hi_), 7, 200, 0]) for _ in range(int(np.prod(shp_)))], dtype=dt_).reshape(shp_)
+            if nd_ is not None and k_ % 5 == 0:
+                arr_[...] = nd_  # every pixel masked
+            bands_ = [arr_.reshape(-1)] if ax_ == "YX" else ([arr_[..., s_].reshape(-1) for s_ in range(ns_)] if ax_ == "YXS" else [arr_[s_].reshape(-1) for s_ in range(ns_)])
+            tie_ = False
+            for b_ in bands_:
+                v_ = [int(x) for x in b_ if nd_ is None or int(x) != nd_]
+                if v_ and (Fraction(sum(v_), len(v_)) * 2 * 10**6).denominator == 1 and (Fraction(sum(v_), len(v_)) * 10**6).denominator != 1:
+                    tie_ = True
+            if tie_:
+                R.count("stats|mean-on-printing-tie-skipped")
+                continue
+            d3_ = arr_[None] if ax_ == "YX" else arr_
+            ch_ = tuple(rng.choice([1, 2, 3, 16]) for _ in shp_)
+
+            def f():
+                st_ = T._stats_from_layer(da_.from_array(arr_, chunks=ch_), nodata=None if nd_ is None else float(nd_), yaxis=1 if ax_ == "SYX" else 0).compute(scheduler="synchronous")  # pylint: disable=protected-access
+                out_ = []
+                for b_ in st_:
+                    # a band without a valid pixel: numpy's masked constant (band vectors) or nan (2-D: `float(masked)`), and
+                    # then valid_percent is masked / nan as well (observation: not 0)
+                    masked_ = np.ma.is_masked(b_["minimum"]) or (isinstance(b_["minimum"], float) and math.isnan(b_["minimum"]))
+                    vp_ = b_["valid_percent"]
+                    cnt_ = 0 if (np.ma.is_masked(vp_) or math.isnan(float(vp_))) else int(round(float(vp_) * ny_ * nx_ / 100))
+                    out_.append(("N N N" if masked_ else f"{int(b_['minimum'])} {int(b_['maximum'])} {float(b_['mean']):.6f}") + f" {cnt_} {ny_ * nx_}")
+                return "+".join(out_)
+
+            R.corr(f"c05 lstats {'SYX' if ax_ == 'YX' else ax_} {nest_s(d3_)} {opt_s(nd_)}", f, sig=f"stats_from_layer|{ax_}|nodata={'yes' if nd_ is not None else 'no'}")
+        # non-finite statistics, pinned as they are today: a band without a valid pixel renders as numpy's masked constant '--',
+        # an all-NaN float band as 'nan'; the XML is still produced (the values are outside the Lean model)
+        if have("_render_gdal_metadata"):
+            def pin_nonfinite():
+                with warnings.catch_warnings():
+                    warnings.simplefilter("ignore")
+                    a2_ = T._stats_from_layer(da_.from_array(np.full((4, 4), 7, "int16"), chunks=2), nodata=7.0, yaxis=0).compute(scheduler="synchronous")  # pylint: disable=protected-access
+                    a3_ = T._stats_from_layer(da_.from_array(np.full((2, 4, 4), 7, "int16"), chunks=2), nodata=7.0, yaxis=1).compute(scheduler="synchronous")  # pylint: disable=protected-access
+                    b_ = T._stats_from_layer(da_.from_array(np.full((4, 4), np.nan, "float32"), chunks=2), nodata=None, yaxis=0).compute(scheduler="synchronous")  # pylint: disable=protected-access
+                xs_ = [T._render_gdal_metadata(v_, precision=6) for v_ in (a2_, a3_, b_)]  # pylint: disable=protected-access
+                return f"{'>nan<' in xs_[0]} {'>--<' in xs_[1]} {'>nan<' in xs_[2]} {[x.count('<Item') for x in xs_]}"
+
+            out_ = guarded(pin_nonfinite)
+            R.oracle(out_ == "True True True [5, 10, 5]", "statistics-nonfinite-rendering-changed",
+                     {"fn": "_stats_from_layer + _render_gdal_metadata", "cases": ["2-D, all pixels == nodata", "2 bands, all pixels == nodata", "all-NaN float32"]},
+                     f"bands without a valid pixel render as 'nan' (2-D) / '--' (band vectors) / 'nan' (all-NaN floats), 5 items per band; now: {out_}", sig="pin|stats-nonfinite")
 
     # ---- tile padding in the block compressors (no encoder → raw bytes of the padded block)
     for _ in range(R.pick(150, 1500) if have("_cog_block_compressor_yxs", "_cog_block_compressor_syx") else 0):
